@@ -293,55 +293,6 @@ func (w *concWorld) sequentialAgrees() bool {
 	return agree
 }
 
-// checkLockDiscipline verifies, from the recorded locker calls, that every key lock of a request is
-// taken inside one PreLock/PostLock section and released, and that nothing is left locked.
-func (w *concWorld) checkLockDiscipline() {
-	type st struct {
-		inPre bool
-		held  map[string]int
-	}
-	per := map[int]*st{}
-	for _, ev := range w.inst.LockerW.Events {
-		s := per[ev.Task]
-		if s == nil {
-			s = &st{held: map[string]int{}}
-			per[ev.Task] = s
-		}
-		switch ev.Call {
-		case "prelock":
-			if s.inPre {
-				w.rc.Violate("C15", "lock-discipline", fmt.Sprintf("task %d: PreLock twice without PostLock", ev.Task), w.s.Step)
-			}
-			s.inPre = true
-		case "postlock":
-			if !s.inPre {
-				w.rc.Violate("C15", "lock-discipline", fmt.Sprintf("task %d: PostLock without PreLock", ev.Task), w.s.Step)
-			}
-			s.inPre = false
-		case "lock":
-			if !s.inPre {
-				w.rc.Violate("C15", "lock-discipline", fmt.Sprintf("task %d: key %s locked outside the locker-wide section", ev.Task, ev.Key), w.s.Step)
-			}
-			s.held[ev.Key]++
-		case "unlock":
-			s.held[ev.Key]--
-		}
-	}
-	for id, s := range per {
-		if id < 0 || id >= len(w.s.Tasks) || !w.s.Tasks[id].Completed {
-			continue
-		}
-		if s.inPre {
-			w.rc.Violate("C15", "lock-discipline", fmt.Sprintf("task %d finished inside the locker-wide section", id), w.s.Step)
-		}
-		for k, n := range s.held {
-			if n != 0 {
-				w.rc.Violate("C15", "lock-discipline", fmt.Sprintf("task %d finished with key %s lock count %d", id, k, n), w.s.Step)
-			}
-		}
-	}
-}
-
 // runConc is the body of C04 and C15 (they share workload and schedule space and differ in oracle).
 func runConc(t *testing.T, rc *RunCtx, prop string) {
 	ch := rc.Ch
@@ -404,7 +355,32 @@ func runConc(t *testing.T, rc *RunCtx, prop string) {
 	if outcome != "done" {
 		return
 	}
-	w.checkLockDiscipline()
+	// Nothing may be left locked: one more request per key, and one naming them all, must still complete.
+	// (Behavioural on purpose: how the ruler avoids lock cycles - a locker-wide section, a canonical order - is
+	// its own business; an earlier version of this check demanded the PreLock/PostLock discipline and would
+	// have raised an alarm on a correct ruler that orders its locks instead.)
+	{
+		var drain []*Op
+		all := &Op{Kind: "multi", Client: "client1"}
+		for k := 0; k < nKeys; k++ {
+			drain = append(drain, &Op{Kind: "gen", Client: "client1", Entries: []Entry{GenEntry(k, MkDomain([4]byte{7, 0, 0, 0}, 1), uint64(900000+k))}})
+			all.Entries = append(all.Entries, GenEntry(k, MkDomain([4]byte{7, 0, 0, 0}, 2), uint64(910000+k)))
+		}
+		drain = append(drain, all)
+		first := len(w.tasks)
+		w.submit(drain)
+		if o := w.s.Run(); o == "deadlock" {
+			return
+		}
+		for i := first; i < len(w.tasks); i++ {
+			if !w.tasks[i].Completed {
+				rc.Violate("C15", "request-never-completed", fmt.Sprintf("after all requests had returned, %s could not complete: something was left locked", w.ops[i]), w.s.Step)
+			}
+		}
+		// The drain requests are not part of the checked history.
+		w.tasks, w.ops, w.res = w.tasks[:first], w.ops[:first], w.res[:first]
+		rc.Stats.Inc("drain_phases", 1)
+	}
 	for _, v := range rc.Viol {
 		if v.Property == "C01" || v.Property == "C02" {
 			rc.Violate("C04", "conflicting-requests-both-signed", "under a concurrent schedule: "+v.Detail, v.Step)
